@@ -71,11 +71,13 @@ def main(argv=None):
         result = decide(prop, a.tier, a.jobs, a.only, a.relock, seed, t0)
     except Undecided as e:
         log("UNDECIDED property=%s: %s" % (prop, e))
-        write_evidence_undecided(prop, a.tier, seed, t0, str(e))
+        if not a.only:  # a developer-loop run never replaces the evidence of a full run
+            write_evidence_undecided(prop, a.tier, seed, t0, str(e))
         return 2
     except Exception:
         traceback.print_exc()
-        write_evidence_undecided(prop, a.tier, seed, t0, "internal error")
+        if not a.only:
+            write_evidence_undecided(prop, a.tier, seed, t0, "internal error")
         return 2
     return result
 
